@@ -25,7 +25,7 @@ PROPS = {
                 "dropped prices, no -v, inverted windows, duplicate universe entries), mixed (price changes and @performance annotations confined to one window of the span, several periods: single "
                 "periods satisfy the hypotheses of the 0%-clause, the journal does not), universe (generated universe files of odd but legal shape - lines and files beyond 4 KiB / 64 KiB / 1 MiB, flow/block/wrapped lists, "
                 "BOM, CRLF, tabs, comments, anchors, deep and many classes - and files that must be rejected as a whole; groups are checked against the classes the generator wrote) and universe-reader "
-                "(performance.LoadUniverse in-process over readers that deliver pieces or fail part-way: loaded = the whole file, or an error), split (the portfolio journals with accounts opened later - on period end days, on days of their own - spread over 2-4 included files by kind / by date / at random, files of different sizes, each run 2-3 times plain and under KNUT_VERIF_SEED / GOMAXPROCS: all monitors and the model comparison on every run). Per-period monitors: zero_period_when_calm (driver op `calm` = Performance.calmPeriods), ratio_without_flows. "
+                "(performance.LoadUniverse in-process over readers that deliver pieces or fail part-way: loaded = the whole file, or an error). Per-period monitors: zero_period_when_calm (driver op `calm` = Performance.calmPeriods), ratio_without_flows. "
                 "class = (stream, outcomes, flag signature, size bucket).",
         "assumptions": ["exact rational arithmetic in place of float64 (outputs compared after rounding to the printed digits with 1-2 units tolerance)",
                         "translated lib/journal/performance (FactsAgree/TransPerformance*.lean): float64 is read as an exact rational (GoSem/Float.lean: + - * exact, comparisons of rationals, decimal.Float64 = the value); x/0 (Go: +-Inf/NaN, no panic) is the distinct outcome F64.undefined at which the translated run stops, the model's `none`; fmt.Printf(\"%0.1f\") is recorded with its exact operand, not formatted; no commodity is tagged as a currency (pickTargets_agrees); translated lib/reports/weights (FactsAgree/TransWeights.lean): the same reading of float64, Value.Weights as an Option (nil map), the tree of lib/common/multimap with its pinned meaning; Query.Execute and the Renderer are not translated",
@@ -94,9 +94,7 @@ PROPS = {
                 "Stream `floatties`: sibling rows that tie in exact arithmetic through addends differing in number, order, sign and magnitude over many periods (instalments against lump sums, subtrees, several commodities, monthly two-decimal prices) "
                 "under balance (valued / unvalued, every interval, --diff, -m, -s) and portfolio weights (tied commodities; --universe classes collapsed by -m), 24 / 60 runs each: a float sum taken in map order shows as rows that change places. "
                 "Stream `period`: journals split over 2-6 files of very different or equal sizes whose first / last dated directives are of every kind (price, open, assertion, transaction, close) and live in files other than the transactions, "
-                "under balance (valued / unvalued, intervals, --diff, --last, --from / --to), register, portfolio weights / returns, 16 / 40 runs each: the report period (a fold over the directives in file arrival order) must not depend on the schedule. "
-                "Stream `targets`: transactions with every shape of `@performance(...)` annotation (0-8 entries, repeated entries, the bookings' own commodities, case variants, blanks, with @accrue; one file or an include tree) under print, balance, "
-                "portfolio returns, transcode, register — the same richer annotations are drawn (from RNGs of their own) for the journals of `repeat`, `failing`, `arrival` and `period`: the target list must come out as written on every run.",
+                "under balance (valued / unvalued, intervals, --diff, --last, --from / --to), register, portfolio weights / returns, 16 / 40 runs each: the report period (a fold over the directives in file arrival order) must not depend on the schedule.",
         "assumptions": [],
     },
     "C05": {
@@ -241,9 +239,7 @@ PROPS = {
                 "Stream trees: the journal spread over an include tree of 1-40 (120) files (wide, below hubs, nested, chains, random, a file included twice; sub-directories, respelled paths), a presence tie "
                 "through all members, half of the cases with a fault at a chosen place (missing / directory / empty / cyclic include, unreadable member, rejected text first / middle / last in a member, "
                 "rejected date or account type, lifecycle violation in a member's last line), one case in eight with members of 60 KB - 6 MB of comments, prices and bookings laid out around the fault; "
-                "in-process and `knut check|print|balance` under KNUT_VERIF_SEED and GOMAXPROCS 1/2/16: an unloadable tree is rejected, otherwise the verdict is the specification's on the union of the directives. "
-                "Stream balflags: re-open, timeline, automaton and ledger journals (several accounts per type booked against each other) under 2-4 full `knut balance` flag vectors each (GenBalFlags, then 0-3 features forced on; "
-                "one vector in four is --account/--commodity with --close=false and without -v): exit status 0 iff the specification accepts, whatever the report flags (valued runs that stop on a price are not counted).",
+                "in-process and `knut check|print|balance` under KNUT_VERIF_SEED and GOMAXPROCS 1/2/16: an unloadable tree is rejected, otherwise the verdict is the specification's on the union of the directives.",
         "assumptions": ["the day grouping of journal.Builder (model Builder.ofList) is exercised through the real loader on every case"],
     },
     "C07": {
@@ -399,7 +395,7 @@ PROPS = {
         "rule": "streams: graph (20 shapes of include graphs x 9 command forms x schedule seeds x GOMAXPROCS), bytes (random bytes, random ASCII, truncated and token-mutated journals), special (44 "
                 "boundary journals x drawn window flags incl. inverted windows, huge/negative --last, negative --digits), flags (41 argv-level variants: unknown flags, bad regex/map/dates, "
                 "missing/dir/empty paths, absent -v, universe files), slow (the recorded resource findings), paths (path.Clean and path.Join(filepath.Dir) vs the model), late (64 / 800 journals whose valid prefix "
-                "reports more than 4 KiB / 64 KiB / 1 MiB before one failing directive - each checker rule, a missing price, a late syntax / date / account / accrual / include error - x 8 command forms, each run with and without the failing directive), flagmix (700 / 12000 runs of balance / portfolio weights / returns with the full balance flag vector of C01-C03 plus 2-4 forced features - -m level 0, -m level 1-3, several -m rules, --remap, --account, --commodity, -s, -v, window, --last, interval, --diff, --close=false, --csv, -a, -k, --digits: every pair occurs - on boundary and generated journals; patterns from the names in the journal; a fifth with a regex or level outside the model, monitored only), contra (400 / 8000 journals whose 2-40 included files of very different sizes contradict each other: one pair quoted on one day with different / respelled / inverse prices, duplicate opens / closes / assertions, conflicting assertions, the same transaction or a whole file twice; all command forms x schedule seeds x GOMAXPROCS 1/2/16). A class = "
+                "reports more than 4 KiB / 64 KiB / 1 MiB before one failing directive - each checker rule, a missing price, a late syntax / date / account / accrual / include error - x 8 command forms, each run with and without the failing directive), flagmix (700 / 12000 runs of balance / portfolio weights / returns with the full balance flag vector of C01-C03 plus 2-4 forced features - -m level 0, -m level 1-3, several -m rules, --remap, --account, --commodity, -s, -v, window, --last, interval, --diff, --close=false, --csv, -a, -k, --digits: every pair occurs - on boundary and generated journals; patterns from the names in the journal; a fifth with a regex or level outside the model, monitored only). A class = "
                 "(stream, kind, command, observed outcome class); distinct_nontrivial counts classes hit.",
         "assumptions": ["the file system has finitely many readable cleaned paths (PATH_MAX)",
                         "the processors' models (Check, Balance, Beancount, Table, Infer, Syntax printer) behave as the code: established by their own properties' correspondence checks; here only the outcome class is compared",
@@ -461,8 +457,7 @@ PROPS = {
                 "result vs model, item-labelled trace vs Lean acceptor/monitor), trace (knut commands on generated journals with KNUT_VERIF_TRACE; trace vs acceptor, "
                 "output vs unperturbed run), race (processor matrix under the -race binary with several seeds), loader (include trees incl. error trees, every file with a drawn byte layout: how it begins, what separates directives, how it ends - no final newline after any kind of directive, blanks, CRLF, comment without newline, include first/last/only; census vs model, "
                 "no-loss/no-dup monitor, timeouts), grow (journals over 100-600 days in which accounts of depth 2-5, commodities, positions and daily prices keep appearing "
-                "x balance/register with -v and every -m level 1-4 plus random combinations of -m rules, --remap, filters, -s, intervals, windows, --diff, --close=false; race detector and normal binary, perturbed schedules), "
-                "quote (journals of 2-90 days whose price table changes piecewise: days without prices, price days that quote exactly one / two / three commodities for the first time and nothing else (in CHF, in an older commodity, in a chain, either direction), first quote next to a re-quote, plain re-quotes, valued bookings before, on and after each; fault `early` = a booking 1-3 days before the first price of its commodity must fail in every schedule; x valued balance/register/transcode/portfolio commands; race detector and normal binary, perturbed schedules). "
+                "x balance/register with -v and every -m level 1-4 plus random combinations of -m rules, --remap, filters, -s, intervals, windows, --diff, --close=false; race detector and normal binary, perturbed schedules). "
                 "A class = (stream, stages/items bucket, failure shape) resp. (command, flags) resp. (tree shape, error kind).",
         "assumptions": ["stage closures share no mutable state other than the item handed over (checked by the race detector runs, not proved)",
                         "the conc pool records the first error before cancelling the context (pinned source, sourcegraph/conc)"],
@@ -526,8 +521,6 @@ PROPS = {
                 "clean-up made to fail), perm (uid 65534, directory modes 555/755/777/500, file modes 644/444/400/000/600/200), multi (2-6 files, one unparseable, limit between the sizes), "
                 "siblings (2-12 files in one command, 0-3 failing at the first/middle/last/random argument positions by a damaged line, non-text bytes, mode 000 as uid 65534, a missing file or "
                 "RLIMIT_FSIZE between the sizes, GOMAXPROCS 1/2/16/unset and schedule seeds: every file that parses and meets no fault of its own holds its complete new contents, every other one its old ones), "
-                "bystanders (in every run of every stream: files, links and sub-directories named after the targets - <target><digits>, <target>.tmp, .<target>.tmp, <target>~, .bak, prefixes, suffixes, hidden - "
-                "must keep existence, contents and mode whatever the fault; siblings also with argument names derived from one name), "
                 "facts (go/ast). A class = (stream, command, file kind, cut/fits, limit bucket) resp. (syscall, file kind, exit) resp. (dir mode, file mode, kind) resp. (n, bad, limit, exit).",
         "assumptions": ["rename(2) replaces the target atomically and fsync makes the temp file durable before it (kernel / file system)",
                         "the temp name chosen by ioutil.TempFile is fresh (O_EXCL) and differs from every target"],
